@@ -417,6 +417,10 @@ def install():
         p = _probe_of(self.env)
         if p is None or not hasattr(inner, "send"):
             return inner
+        # independent record of "this observation was handed to the
+        # scheduler for processing" (C19's notion of queued)
+        p.call("alloc_handed", self.env.now,
+               obs=getattr(observation, "name", None))
 
         def make():
             return p.rec("alloc_tasks", self.env,
